@@ -187,9 +187,22 @@ func main() {
 	noEvidence := flag.Bool("no-evidence", false, "do not write evidence/replay files")
 	verbose := flag.Bool("v", false, "print every obligation")
 	wm := flag.Bool("write-manifest", false, "regenerate MANIFEST.json from the registered properties")
+	wa := flag.Bool("write-anchors", false, "regenerate anchors.json (function signatures and fingerprints of the current tree, used to recognise renamed functions)")
 	flag.Parse()
 	if *wm {
 		writeManifest(verifDir())
+		return
+	}
+	if *wa {
+		rp := os.Getenv("WZ_REPO")
+		if rp == "" {
+			rp = "/repo"
+		}
+		P, err := loadProgram(loadOpts{repo: rp})
+		if err != nil {
+			fatal(2, "load failed: %v", err)
+		}
+		writeAnchors(P)
 		return
 	}
 
